@@ -161,13 +161,27 @@ structure Binding where
   filename : Str
   deriving DecidableEq, Repr
 
-/-- `assistant._loc(r.declared_at, r.filename)`: `{'loc': ..., 'file': ...}` -/
+/-- `assistant._loc(location, filename)`: `{'loc': ..., 'file': ...}` -/
 structure Loc where
   loc : Nat × Nat
   file : Str
   deriving DecidableEq, Repr
 
-def locationEntry (b : Binding) : Loc := { loc := b.declaredAt, file := b.filename }
+/-- before 4a16e68: the position as the analysis of the MARKED text has it -/
+def locationEntryLegacy (b : Binding) : Loc := { loc := b.declaredAt, file := b.filename }
+
+/-- `location().loc(n)`: location() analyses the text with the cursor mark inserted at `cursor`; a position in that
+    file, on the cursor's line, right of the cursor is moved back by the length of the mark -/
+def locationEntry (sourceFile : Str) (cursor : Nat × Nat) (b : Binding) : Loc :=
+  let ln := b.declaredAt.1
+  let col := b.declaredAt.2
+  let col := if b.filename = sourceFile ∧ ln = cursor.1 ∧ col > cursor.2 then col - Generated.sourceMark.length else col
+  { loc := (ln, col), file := b.filename }
+
+/-- where a character at `p` of the unmarked text stands in the text marked at `cursor`
+    (`markLine`: everything from the cursor column on moves right by the length of the mark) -/
+def markedPos (cursor p : Nat × Nat) : Nat × Nat :=
+  if p.1 = cursor.1 ∧ cursor.2 ≤ p.2 then (p.1, p.2 + Generated.sourceMark.length) else p
 
 /-- linter: `(w, message.format(name.name), name.declared_at[0], name.declared_at[1], flow)` -/
 structure LintEntry where
